@@ -6,7 +6,8 @@ drv_server ops (not verified; exercised on every line):
   srv run <kind> <auth:T|F> <nb> <tok>*        kind = threaded | pool | forking | oneshot
   srv classify <hex> [<inhex>=<outhex|E>,..]   frames of a byte string
 
-tokens:  c<k>:<g|b|s> connect (good / bad / silent credentials) · p<k> call · l<k> call that lends an object ·
+tokens:  c<k>:<g|b|s|r> connect (good / bad / no credentials yet / connection reset at once) · k<k>:<g|b> the late
+credentials of a client that connected with s · d<k>:<n> release the object of the n-th lend · · p<k> call · l<k> call that lends an object ·
 o<k>:<n> use the object of the n-th lend (0-based, whole case) on connection k · g<k> graceful close ·
 a<k> abrupt close · X server close · i<k>:<letters> hostile frames given as items (h handled, e empty, b bad,
 t incomplete) · r<k>:<hex>[:<inhex>=<outhex|E>,..] hostile bytes (zlib results of the compressed frames supplied).
@@ -59,10 +60,11 @@ inductive Tok where
   | op (o : Op)
   | lend (k : Nat)
   | probe (k n : Nat)
+  | drop (k n : Nat)
   | needsEnv
 
 def parseCred : List Char → Option Cred
-  | ['g'] => some .good | ['b'] => some .bad | ['s'] => some .silent
+  | ['g'] => some .good | ['b'] => some .bad | ['s'] => some .silent | ['r'] => some .reset
   | _ => none
 
 def parseTok (tok : String) : Option Tok :=
@@ -78,6 +80,16 @@ def parseTok (tok : String) : Option Tok :=
   | 'o' :: cs => match splitColon cs with
     | [k, n] => match parseNatChars k, parseNatChars n with
       | some k, some n => some (.probe k n)
+      | _, _ => none
+    | _ => none
+  | 'd' :: cs => match splitColon cs with
+    | [k, n] => match parseNatChars k, parseNatChars n with
+      | some k, some n => some (.drop k n)
+      | _, _ => none
+    | _ => none
+  | 'k' :: cs => match splitColon cs with
+    | [k, c] => match parseNatChars k, parseCred c with
+      | some k, some c => some (.op (.creds k c))
       | _, _ => none
     | _ => none
   | 'g' :: cs => (parseNatChars cs).map (fun k => .op (.gracefulClose k))
@@ -103,6 +115,7 @@ def parseTok (tok : String) : Option Tok :=
 def showObs : Obs → String
   | .none => "-" | .ok => "ok" | .refused => "refused" | .eof => "eof" | .timeout => "timeout"
   | .reply .pong => "pong" | .reply (.ref _) => "ref" | .reply .resolved => "resolved" | .reply .keyError => "keyerr"
+  | .reply .done => "done"
 
 def b01 (b : Bool) : String := if b then "1" else "0"
 
@@ -151,6 +164,13 @@ def runToks (dbg : Bool) : List Tok → St → List (Option Nat) → List String
       match lends[n]? with
       | some (some oid) =>
         (match step s (.call k (.probe oid)) with
+         | .ok (s', ob) => fin s' (showObs ob) lends
+         | .error _ => fin s "skip" lends)
+      | _ => fin s "skip" lends
+    | .drop k n =>
+      match lends[n]? with
+      | some (some oid) =>
+        (match step s (.call k (.drop oid)) with
          | .ok (s', ob) => fin s' (showObs ob) lends
          | .error _ => fin s "skip" lends)
       | _ => fin s "skip" lends
